@@ -395,6 +395,30 @@ func registerOS(e *Engine) {
 		}
 		return c.Return(e.newSlice(c.St, out))
 	}
+	// kill(2): a ghost event (pid, signal); negative pid = process group
+	e.Intr["syscall.Kill"] = func(c *Call) []*State {
+		c.St.Events = append(c.St.Events, Event{Kind: "kill", Args: []Value{c.argTerm(0), c.argTerm(1)}, Thr: c.Th.ID})
+		return c.Return(Iface{})
+	}
+	e.Intr["(*os.Process).Signal"] = func(c *Call) []*State {
+		p, ok := c.Args[0].(Ptr)
+		if !ok || p.IsNil() {
+			return c.Panic("nil-deref", "Signal on nil *os.Process")
+		}
+		pid := c.St.Load(p).(*Struct).F[0].(*Term) // Pid
+		var sig Value = BVC(0, 64)
+		if iv, ok := c.Args[1].(Iface); ok && iv.V != nil {
+			sig = iv.V
+		}
+		c.St.Events = append(c.St.Events, Event{Kind: "kill", Args: []Value{pid, sig}, Thr: c.Th.ID})
+		return c.Return(Iface{})
+	}
+	e.Intr["(*os.Process).Kill"] = func(c *Call) []*State {
+		p := c.Args[0].(Ptr)
+		pid := c.St.Load(p).(*Struct).F[0].(*Term)
+		c.St.Events = append(c.St.Events, Event{Kind: "kill", Args: []Value{pid, BVC(9, 64)}, Thr: c.Th.ID})
+		return c.Return(Iface{})
+	}
 	e.Intr["os.Getpid"] = func(c *Call) []*State { return c.Return(BVC(4242, 64)) }
 	e.Intr["os.Getwd"] = func(c *Call) []*State { return c.Return(Tuple{StrC("/cwd"), Iface{}}) }
 	e.Intr["os.UserHomeDir"] = func(c *Call) []*State { return c.Return(Tuple{StrC("/home/u"), Iface{}}) }
